@@ -125,8 +125,9 @@ def tlc_mc(spec, cfg, workers=None, heap=None, timeout=3000, tag=None, coverage=
     return res
 
 
-def _decode_gen(path):
-    """Lines written by CSVWrite("%1$s", <<ToJson(x)>>): a JSON string holding JSON (or bare JSON)."""
+def _decode_gen(path, line_filter=None):
+    """Lines written by CSVWrite("%1$s", <<ToJson(x)>>): a JSON string holding JSON (or bare JSON).
+    line_filter(raw line) -> bool decides, before any decoding, whether the line is wanted."""
     res = []
     bad = 0
     if not os.path.exists(path):
@@ -135,6 +136,8 @@ def _decode_gen(path):
         for line in f:
             line = line.strip()
             if not line:
+                continue
+            if line_filter is not None and not line_filter(line):
                 continue
             try:
                 v = json.loads(line)
@@ -166,7 +169,8 @@ def maximal_behaviours(behs, steps_key="steps"):
     return [b for k, b in keyed.items() if k not in parents]
 
 
-def tlc_gen(spec, cfg, workers=1, timeout=3000, heap=None, tag=None, steps_key="steps", keep_prefixes=False, env=None):
+def tlc_gen(spec, cfg, workers=1, timeout=3000, heap=None, tag=None, steps_key="steps", keep_prefixes=False, env=None,
+            line_filter=None):
     """Run a generator configuration; returns (behaviours, stats)."""
     tag = tag or cfg.replace(".cfg", "")
     d = _metadir("gen-" + tag)
@@ -178,7 +182,11 @@ def tlc_gen(spec, cfg, workers=1, timeout=3000, heap=None, tag=None, steps_key="
                          env=e, timeout=timeout, heap=heap)
     if rc != 0 or "No error has been found" not in out:
         raise MachineryError(f"generator {spec}/{cfg} failed rc={rc}:\n{out[-3000:]}")
-    behs = _decode_gen(gen)
+    behs = _decode_gen(gen, line_filter)
+    try:
+        os.remove(gen)      # generator output can be gigabytes
+    except OSError:
+        pass
     m = None
     for m in _RE_STATES.finditer(out):
         pass
